@@ -106,6 +106,7 @@ type Task struct {
 	pend    *pendingOp    // blocking channel operation announced by this task
 	selVal  reflect.Value // value received by the task's last SelectG
 	selOk   bool
+	lib     bool // started by the code under test (vrt.GoLib), not by the harness
 }
 
 // ChoicePoint is one recorded choice point (a scheduling point with more than one enabled
@@ -138,6 +139,9 @@ type Exec struct {
 	crashStk  string
 	finished  chan struct{}
 	joinToken byte
+
+	parked     int    // tasks of the code under test left parked when the execution ended
+	parkedDesc string // what they were waiting on
 
 	// virtual time (time.go)
 	vnow     time.Duration
@@ -332,14 +336,15 @@ retry:
 		goto retry
 	}
 	if n == 0 {
-		// A task blocked on a channel may be waiting for something outside the task
-		// world (a timer). Poll in real time for a while before declaring deadlock.
-		if e.anyChanWaiter() && polls < 400 {
+		// A task blocked on a channel that was not made under the scheduler may be waiting
+		// for something outside the task world (a real timer). Poll in real time for a
+		// while before deciding.
+		if e.anyOutsideChanWaiter() && polls < 400 {
 			polls++
 			time.Sleep(500 * time.Microsecond)
 			goto retry
 		}
-		return nil, true
+		return e.quiescent(), true
 	}
 	if n == 1 {
 		return list[0], true
@@ -351,15 +356,81 @@ retry:
 	return list[c], true
 }
 
+// anyOutsideChanWaiter: is some task blocked in a channel operation that involves a
+// channel the scheduler does not know to be made by controlled code (MakeChan)?
+//
 //go:norace
-func (e *Exec) anyChanWaiter() bool {
+func (e *Exec) anyOutsideChanWaiter() bool {
 	for i := 0; i < e.ntasks; i++ {
 		u := e.tasks[i]
-		if !u.done && (u.opKind == OpSelect || u.opKind == OpRecv || u.opKind == OpSend) {
-			return true
+		if u.done || u.pend == nil || !(u.opKind == OpSelect || u.opKind == OpRecv || u.opKind == OpSend) {
+			continue
+		}
+		for _, c := range u.pend.cases {
+			if c.ch.IsValid() && !c.ch.IsNil() && !isOwnChan(c.ch.UnsafePointer()) {
+				return true
+			}
 		}
 	}
 	return false
+}
+
+// parkedEnd is the pseudo-task pick returns when the execution is over although some
+// tasks of the code under test are still blocked (see quiescent).
+var parkedEnd = &Task{ID: -1}
+
+// quiescent decides what "no task is enabled and the clock cannot advance" means.
+//
+// A goroutine started by the code under test (vrt.GoLib) that is blocked in a channel
+// receive/send/select or a condition wait while nothing else can run is *parked*: a
+// worker waiting for work that lives as long as its owner. That is not a deadlock. A
+// deadlock is a harness task (the body, or anything it started with vrt.Go: publishers,
+// subscribers, Wait/Shutdown callers) that can never continue, or a task of the code
+// under test stuck on a lock or a WaitGroup, which no idle worker ever is.
+//
+//   - some harness task is blocked on anything but Join, or a lib task is blocked on a
+//     lock/WaitGroup: deadlock (nil);
+//   - otherwise, a harness task blocked in Join is released (every other task is done or
+//     parked): returned as the next task;
+//   - otherwise every unfinished task is a parked lib task: the execution ends normally
+//     (parkedEnd), and Result.Parked says how many were left.
+//
+//go:norace
+func (e *Exec) quiescent() *Task {
+	var joiner *Task
+	nparked := 0
+	for i := 0; i < e.ntasks; i++ {
+		u := e.tasks[i]
+		if u.done {
+			continue
+		}
+		if !u.lib {
+			if u.opKind == OpJoin && joiner == nil {
+				joiner = u
+				continue
+			}
+			return nil
+		}
+		switch u.opKind {
+		case OpRecv, OpSelect, OpSend, OpCondWait:
+			nparked++
+		default:
+			return nil
+		}
+	}
+	if nparked == 0 {
+		return nil
+	}
+	if joiner != nil {
+		if jw, ok := joiner.opObj.(*joinWait); ok {
+			jw.released = true
+			return joiner
+		}
+		return nil
+	}
+	e.parked = nparked
+	e.parkedDesc = e.describeBlocked()
+	return parkedEnd
 }
 
 //go:norace
@@ -414,6 +485,9 @@ func (e *Exec) Sched(kind OpKind, obj Waitable, addr unsafe.Pointer) bool {
 	}
 	if next == nil {
 		e.abortFrom(StatusDeadlock, e.describeBlocked())
+	}
+	if next == parkedEnd {
+		e.abortFrom(StatusOK, "parked")
 	}
 	if next != t {
 		e.running = next
@@ -470,10 +544,16 @@ func Point() {
 	}
 }
 
-type joinWait struct{ e *Exec }
+type joinWait struct {
+	e        *Exec
+	released bool // every other task is done or parked (see quiescent)
+}
 
 //go:norace
 func (j *joinWait) VrtReady(kind OpKind, t *Task) bool {
+	if j.released {
+		return true
+	}
 	for i := 0; i < j.e.ntasks; i++ {
 		u := j.e.tasks[i]
 		if u != t && !u.done {
@@ -483,7 +563,8 @@ func (j *joinWait) VrtReady(kind OpKind, t *Task) bool {
 	return true
 }
 
-// Join blocks the calling task until every other task has exited.
+// Join blocks the calling task until every other task has exited or, for tasks of the
+// code under test, is parked for good (see quiescent).
 //
 //go:norace
 func Join() {
@@ -491,7 +572,7 @@ func Join() {
 	if e == nil {
 		return
 	}
-	if e.Sched(OpJoin, &joinWait{e}, nil) {
+	if e.Sched(OpJoin, &joinWait{e: e}, nil) {
 		RaceAcquire(unsafe.Pointer(&e.joinToken))
 	}
 }
@@ -510,7 +591,17 @@ func (e *Exec) newTask() *Task {
 // Go starts f as a new task (or as a plain goroutine when running free).
 //
 //go:norace
-func Go(f func()) {
+func Go(f func()) { spawn(f, false) }
+
+// GoLib is what vinstr turns the `go` statements of the code under test into: the task
+// is marked as belonging to that code, which matters only for telling a parked worker
+// from a deadlock (see quiescent).
+//
+//go:norace
+func GoLib(f func()) { spawn(f, true) }
+
+//go:norace
+func spawn(f func(), lib bool) {
 	e := cur
 	if e == nil {
 		go f()
@@ -520,6 +611,7 @@ func Go(f func()) {
 		return
 	}
 	t := e.newTask()
+	t.lib = lib
 	go taskMain(e, t, f)
 }
 
@@ -555,6 +647,9 @@ func taskExit(e *Exec, t *Task) {
 			}
 			e.aborted = true
 			e.signalFinished()
+		case next == parkedEnd:
+			e.aborted = true
+			e.signalFinished()
 		case next != nil:
 			e.running = next
 			wakeTask(next)
@@ -582,6 +677,10 @@ type Result struct {
 	CrashVal string
 	CrashStk string
 	Pruned   bool
+	// Parked counts tasks of the code under test that were still blocked (waiting for
+	// work) when everything else had finished; ParkedDesc says on what.
+	Parked     int
+	ParkedDesc string
 }
 
 // Config for one execution.
@@ -646,7 +745,7 @@ func Run(cfg Config, body func()) *Result {
 	}
 	RaceAcquire(unsafe.Pointer(&e.joinToken))
 	cur = nil
-	res := &Result{Status: e.status, Msg: e.msg, Steps: e.steps, Tasks: e.ntasks, CrashVal: e.crashVal, CrashStk: e.crashStk, Pruned: e.pruned}
+	res := &Result{Status: e.status, Msg: e.msg, Steps: e.steps, Tasks: e.ntasks, CrashVal: e.crashVal, CrashStk: e.crashStk, Pruned: e.pruned, Parked: e.parked, ParkedDesc: e.parkedDesc}
 	res.Points = make([]ChoicePoint, e.npoints)
 	copy(res.Points, e.points[:e.npoints])
 	return res
